@@ -9,6 +9,8 @@
 -/
 import Proofs.ConvertSelf
 import Proofs.GraphHist
+import Proofs.PlanSingle
+import Proofs.PlanSimple
 
 namespace Measured.C05
 open Measured
@@ -158,5 +160,49 @@ theorem direct_route_independent (hσ : ∀ k, σ k ≠ 0) {c c₁ c₂ c₃ ca 
   have hs := unitSz_ne_zero hσ hg.canon ht
   have : r₃.mag.val * unitSz σ c.st t = r₂.mag.val * unitSz σ c.st t := by rw [e3, e2, e1]
   exact mul_right_cancel₀ hs this
+
+/-! ### through the factor planner: one base unit on each side, any prefixes -/
+
+/-- A fundamental dimension as the planner needs it: weight one, a factor of itself, no negative
+    exponent (length, mass, time, …; decided by the kernel for the regenerated registry). -/
+def Fundamental (d : Dim) : Prop :=
+  d.weight ≤ 1 ∧ d.isFactor d = true ∧ (d.div d).isNumber = true ∧ d.any (fun x => decide (x < 0)) = false
+
+/-- **Prefixed units convert exactly** (kilometre → mile, milligram → pound, millisecond → hour): source
+    and target each consist of one base unit (to the first power) of one fundamental dimension, with any
+    prefixes.  In every reachable state, whatever `convert` returns — through the directly found path
+    or, with prefixes, through `_replace_factors` / `_match_factors` / `_cancel_factors` /
+    `_inline_paths` — satisfies `result · size(target) = magnitude · size(source)`.  No hypothesis
+    about the plan: this is the planner itself. -/
+theorem single_factor_conversion_exact (hσ : ∀ k, σ k ≠ 0) {c c' : Conv Rat} (hr : Reach σ c)
+    {q r : Qty Rat} {t u v : UId} {d : Dim}
+    (hq : q.unit < c.st.units.length) (ht : t < c.st.units.length)
+    (hu : u < c.st.units.length) (hv : v < c.st.units.length)
+    (hsf : (c.st.unit! q.unit).factors = [(u, 1)]) (htf : (c.st.unit! t).factors = [(v, 1)])
+    (hub : (c.st.unit! u).pfx = Pfx.identity ∧ (c.st.unit! u).factors = [(u, 1)])
+    (hvb : (c.st.unit! v).pfx = Pfx.identity ∧ (c.st.unit! v).factors = [(v, 1)])
+    (hdu : c.st.dimOfUnit u = d) (hdv : c.st.dimOfUnit v = d) (hd : Fundamental d)
+    (h : CM.exec (convert q t) c = (.ok r, c')) :
+    r.unit = t ∧ r.mag.val * unitSz σ c.st t = q.mag.val * unitSz σ c.st q.unit := by
+  obtain ⟨hg, ho, hw⟩ := reach_graphOK hσ hr
+  exact convert_single_exact hσ hg hw ho hq ht hu hv hsf htf hub hvb hdu hdv hd.1 hd.2.1 hd.2.2.1 hd.2.2.2 h
+
+/-- **Simple compound units convert exactly** (km/h → m/s, kg·m² → lb·ft², cm³ → in³, mg/mL → lb/gal):
+    products of powers of base units with any prefixes, whose dimensions are fundamental and pairwise
+    independent (`KeysOK K`), with the same number of base units per dimension and sign on both sides
+    (`matchSpec … = some ([], [], plan)`).  In every reachable state, whatever `convert` returns —
+    directly or through the whole factor planner — is exact. -/
+theorem simple_conversion_exact (hσ : ∀ k, σ k ≠ 0) {K : List Dim} (hK : KeysOK K) (hKw : ∀ d ∈ K, d.weight ≤ 1)
+    {c c' : Conv Rat} (hr : Reach σ c) {q r : Qty Rat} {t : UId} {plan : List (Rough Rat)}
+    (hq : q.unit < c.st.units.length) (ht : t < c.st.units.length)
+    (hfs : ∀ f ∈ (c.st.unit! q.unit).factors,
+      FactorOK K c.st f ∧ f.1 < c.st.units.length ∧ unitSz σ c.st f.1 = σ f.1)
+    (hft : ∀ f ∈ (c.st.unit! t).factors,
+      FactorOK K c.st f ∧ f.1 < c.st.units.length ∧ unitSz σ c.st f.1 = σ f.1)
+    (hspec : matchSpec (splat c.st t).byComplexFirst (splat c.st q.unit) (splat c.st t) [] = some ([], [], plan))
+    (h : CM.exec (convert q t) c = (.ok r, c')) :
+    r.unit = t ∧ r.mag.val * unitSz σ c.st t = q.mag.val * unitSz σ c.st q.unit := by
+  obtain ⟨hg, ho, hw⟩ := reach_graphOK hσ hr
+  exact convert_simple_exact hσ hK hKw hg hw ho hq ht hfs hft hspec h
 
 end Measured.C05
